@@ -79,32 +79,37 @@ def unionLoopE (unionOp : Bool) : List TExpr → List TExpr → Bool → List TE
 def wrap1E (name : Str) (inner : TExpr) : TExpr :=
   if print inner = [] then .atom name else .app name [inner]
 
+def baseE (o : Opts) (a : Attrs) (kidEs : List TExpr) : TExpr × Bool :=
+  if a.ty ≠ [] then (.atom a.ty, a.isOptional)
+  else
+    match kidEs with
+    | _ :: _ :: _ =>
+      let r := unionLoopE o.unionOp kidEs [] a.isOptional
+      match r.1 with
+      | [d] => (d, r.2)
+      | ds => (if o.unionOp then borFlat ds else .app sUnion ds, r.2)
+    | [h] => (h, a.isOptional)
+    | [] =>
+      if a.literals ≠ [] then (.app sLiteral (a.literals.map .atom), a.isOptional)
+      else match a.ref with
+        | some r => (.atom r.shortName, a.isOptional)
+        | none => (.atom [], a.isOptional)
+
+def containerE (o : Opts) (a : Attrs) (keyE : Option TExpr) (b : TExpr) : TExpr :=
+  if a.isList then wrap1E (listName o) b
+  else if a.isSet then wrap1E (setName o) b
+  else if a.isDict then
+    (if keyE.isSome ∨ print b ≠ [] then
+      .app (dictName o) [keyE.getD (.atom sStr), if print b = [] then .atom sAny else b]
+    else .atom (dictName o))
+  else b
+
+def finishE (unionOp : Bool) (ty : TExpr) (opt : Bool) : TExpr × Bool :=
+  if opt ∧ print ty ≠ sAny then (getOptionalE unionOp ty, opt) else (ty, opt)
+
 def hintNodeE (o : Opts) (a : Attrs) (keyE : Option TExpr) (kidEs : List TExpr) : TExpr × Bool :=
-  let base : TExpr × Bool :=
-    if a.ty ≠ [] then (.atom a.ty, a.isOptional)
-    else
-      match kidEs with
-      | _ :: _ :: _ =>
-        let r := unionLoopE o.unionOp kidEs [] a.isOptional
-        match r.1 with
-        | [d] => (d, r.2)
-        | ds => (if o.unionOp then borFlat ds else .app sUnion ds, r.2)
-      | [h] => (h, a.isOptional)
-      | [] =>
-        if a.literals ≠ [] then (.app sLiteral (a.literals.map .atom), a.isOptional)
-        else match a.ref with
-          | some r => (.atom r.shortName, a.isOptional)
-          | none => (.atom [], a.isOptional)
-  let opt := base.2 || (match a.ref with | some r => r.nullable | none => false)
-  let ty : TExpr :=
-    if a.isList then wrap1E (listName o) base.1
-    else if a.isSet then wrap1E (setName o) base.1
-    else if a.isDict then
-      (if keyE.isSome ∨ print base.1 ≠ [] then
-        .app (dictName o) [keyE.getD (.atom sStr), if print base.1 = [] then .atom sAny else base.1]
-      else .atom (dictName o))
-    else base.1
-  if opt ∧ print ty ≠ sAny then (getOptionalE o.unionOp ty, opt) else (ty, opt)
+  let base := baseE o a kidEs
+  finishE o.unionOp (containerE o a keyE base.1) (base.2 || refNullable a)
 
 mutual
 def hintE (o : Opts) : DT → TExpr × Bool
